@@ -106,6 +106,22 @@ def gen_len(rng: random.Random, allow_big: bool) -> int:
     return rng.randrange(60000, 200000)
 
 
+def block_bytes(op: dict[str, Any]) -> bytes:
+    """Seeded content; fill seeds with (fill % 5 == 0) give a block of one repeated byte and
+    (fill % 5 == 1) a block made of a few long runs - what a writer that emits run-length records,
+    or treats 'all the same byte' specially, reacts to."""
+    fill, n = op["fill"], op["len"]
+    if fill % 5 == 0:
+        return bytes([(fill >> 8) & 0xFF]) * n
+    if fill % 5 == 1 and n > 4:
+        rng = random.Random(fill)
+        out = bytearray()
+        while len(out) < n:
+            out += bytes([rng.randrange(256)]) * rng.choice([1, 2, 7, 8, 9, 64, 300, 70000])
+        return bytes(out[:n])
+    return random.Random(fill).randbytes(n)
+
+
 def gen_case(cseed: int, tier: str) -> dict[str, Any]:
     w = core.substream(cseed, "workload")
     k = core.substream(cseed, "knobs")
@@ -200,7 +216,7 @@ def _child(root: str, case: dict[str, Any]) -> dict[str, Any]:
 
     header = bool(case["header"])
     shift = 0x200 if header else 0
-    blocks = [(op["addr"], random.Random(op["fill"]).randbytes(op["len"])) for op in case["ops"]]
+    blocks = [(op["addr"], block_bytes(op)) for op in case["ops"]]
     env = None
     fobj: Any
     if case["stream"] == "bytesio":
@@ -227,7 +243,7 @@ def _child(root: str, case: dict[str, Any]) -> dict[str, Any]:
             # a second, unrelated writer on its own stream, driven in between the calls of the writer
             # under test (writers must not share state through the class or the module)
             by_ops = case.get("bystander") or []
-            by_blocks = [(op["addr"], random.Random(op["fill"]).randbytes(op["len"])) for op in by_ops]
+            by_blocks = [(op["addr"], block_bytes(op)) for op in by_ops]
             by_stream = io.BytesIO()
             by_writer = IPSWriter(by_stream, not header) if by_ops else None
             by_calls = [("begin", None)] + [("write_block", i) for i in range(len(by_blocks))] + [("end", None)] if by_ops else []
